@@ -25,7 +25,8 @@ BEFORE = ['a', '1', "'s'", '/r/', 'this', 'null', 'true', 'a++', 'a--', '(a)', '
 STMT_BEFORE = ['if (a)', 'while (a)', 'for (;;)', 'for (a in b)', 'if (a) b; else', 'do', '{}', '{ a }', ';', 'function f(){}',
                'x: ', 'switch (a) { case 1:', 'try {} finally {}', 'return', 'throw', 'var a =', 'if (f(a))', 'if ((a))', 'while (a) {}',
                'for (var i = 0; i < (n); i++)', 'a = {}', 'a = function(){}', 'case']
-AFTER = ['/ b', '/b/', '/b/.test(c)', '/b/g', '/= b', '/=b/', '/ b / c', '/ 2', '/[/]/', '/ (b) / c']
+AFTER = ['/ b', '/b/', '/b/.test(c)', '/b/g', '/= b', '/=b/', '/ b / c', '/ 2', '/[/]/', '/ (b) / c',
+         '/b/g / 2', '/b/ / 2 / 1', '/b/g /= 2', '/b/ / /c/', '/b/g\n/ 2', '/b/ /**/ / 2']
 SEPS = ['', ' ', '  ', '\t', '\n', '\r\n']
 
 
